@@ -32,10 +32,11 @@ def rebuild(t, f):
 
 
 class Interp:
-    def __init__(self, prog, max_depth=6):
+    def __init__(self, prog, max_depth=6, opaque=None):
         self.prog = prog
         self.max_depth = max_depth
         self._ret = {}
+        self.opaque = opaque or (lambda body: False)
 
     def ret_term(self, body):
         """provenance of the return value (phi over all return points), in terms of params"""
@@ -66,7 +67,7 @@ class Interp:
                 if s is None:
                     return n
                 cb = self.prog.callee_body(s)
-                if cb is None or cb.is_closure():
+                if cb is None or cb.is_closure() or self.opaque(cb):
                     return n
                 rt = self.ret_term(cb)
                 bp = self.prog.bp(s.body)
@@ -114,5 +115,14 @@ def unwrap_all(t):
     def f(n):
         if n[0] == "wrap":
             return n[2]
+        return n
+    return rebuild(t, f)
+
+
+def unclone_all(t):
+    """remove every clone layer at any depth (State/Action clones are value copies)"""
+    def f(n):
+        if n[0] == "clone":
+            return n[1]
         return n
     return rebuild(t, f)
